@@ -198,6 +198,9 @@ ld vf_cell_area(const vf_cell *c);
  * to exceed 35% to clear the coordinate resolution stated in C02) */
 int vf_geo_neighbors_c(const vf_cell *c, ld frac, H3Index out[MAX_CELL_BNDRY_VERTS]);
 int vf_geo_neighbors(H3Index h, H3Index out[MAX_CELL_BNDRY_VERTS]);
+/* indexes (into A's vertex list, A's counter-clockwise order) of the boundary stretch A shares
+ * with B: returns the number of points (2 or 3), 0 if none, -1 if not one connected 1-2 segment run */
+int vf_shared_stretch(const vf_cell *A, const vf_cell *B, int idx[4]);
 int vf_geo_neighbors_cached(H3Index h, H3Index out[MAX_CELL_BNDRY_VERTS]);
 #define VF_PUSH_FRAC 0.01L
 
